@@ -7,7 +7,7 @@ verus! {
 //@include shims/uuid.rs
 // R3: `x.into()` (&str -> String; this Verus cannot attach a specification to <String as From<&str>>::from) redirected: keeps the characters
 #[verifier::external_body] pub fn kvx_string_of(s: &str) -> (r: String) ensures r@ == s@ { unimplemented!() }
-pub enum Attribute { Class, Name, Spn, Uuid, DomainName, Other(u64) }
+#[derive(PartialEq, Eq)] pub enum Attribute { Class, Name, Spn, Uuid, DomainName, Other(u64) }
 pub enum EntryClass { Group, Account, Other(u64) }
 pub enum SyntaxType { SecurityPrincipalName, Utf8StringIname, Other(u64) }
 impl vstd::std_specs::cmp::PartialEqSpecImpl for SyntaxType { open spec fn obeys_eq_spec() -> bool { true } open spec fn eq_spec(&self, o: &SyntaxType) -> bool { *self == *o } }
@@ -71,7 +71,7 @@ pub open spec fn spn_is_name_at_domain<V, S>(e: &Entry<V, S>, domain: Seq<char>)
 // ---- domain rename: post_modify_inner purges EVERY spn so that modify_inner (above) regenerates it with the new domain name ----
 pub struct Arc<T> { pub v: T }
 impl<T> core::ops::Deref for Arc<T> { type Target = T; fn deref(&self) -> (r: &T) ensures *r == self.v { &self.v } }
-pub struct EntrySealed; pub struct EntryCommitted;
+pub struct EntrySealed; #[derive(Clone, Debug)] pub struct EntryCommitted;
 pub struct Value { pub o: u64 }
 impl<V, S> Entry<V, S> {
     pub uninterp spec fn is_domain_info(&self) -> bool;           // uuid == UUID_DOMAIN_INFO
@@ -102,10 +102,21 @@ impl QueryServerWriteTransaction {
 pub open spec fn domain_renamed(pre: &[Arc<Entry<EntrySealed, EntryCommitted>>], post: &[Entry<EntrySealed, EntryCommitted>]) -> bool {
     exists|i: int| 0 <= i < post@.len() && i < pre@.len() && (#[trigger] post@[i]).is_domain_info() && post@[i].domain_name_val() is Some && post@[i].domain_name_val() != pre@[i].v.domain_name_val()
 }
+#[derive(Clone, Debug)] pub struct EntryNew;
+// events carry the modifications they request (the real Modify enum; the list as ModifyList::iter exposes it)
+//@extract Modify
+pub struct ModifyValid;
+#[verifier::reject_recursive_types(S)] pub struct ModifyList<S> { pub mods: Vec<Modify>, pub p: core::marker::PhantomData<S> }
+impl<S> ModifyList<S> { pub fn iter(&self) -> (r: core::slice::Iter<'_, Modify>) { self.mods.iter() } }
+pub struct CreateEvent { pub o: u8 } pub struct ModifyEvent { pub modlist: ModifyList<ModifyValid> } pub struct BatchModifyEvent { pub o: u8 }
+pub type EntrySealedCommitted = Entry<EntrySealed, EntryCommitted>;
 pub struct Spn {}
 impl Spn {
 //@extract modify_inner
 //@extract post_modify_inner
+//@extract spn_pre_create_transform
+//@extract spn_pre_modify
+//@extract spn_pre_batch_modify
 }
 }
 fn main(){}
